@@ -4434,7 +4434,10 @@ def unify_chunks(*args, **kwargs):
             chunks = tuple(
                 (
                     chunkss[j]
-                    if a.shape[n] > 1
+                    # a length-1 axis is broadcast as a single block, unless it already
+                    # has the unified chunks (e.g. (0, 1): merging them would contradict
+                    # the chunks reported for the result)
+                    if a.shape[n] > 1 or a.chunks[n] == chunkss[j]
                     else a.shape[n] if not np.isnan(sum(chunkss[j])) else None
                 )
                 for n, j in enumerate(i)
